@@ -356,8 +356,61 @@ func zombie(r *vh.Run, rng *vh.RNG, name string, queryBetween bool) {
 	w.Finish(true, "zombie")
 }
 
+// resubmit: between two blocks, sets that contain an already pooled heavy transaction next to a new
+// small one are submitted again and again.  The pooled member is skipped every time; the pool's
+// weight is what the pooled transactions weigh, so nothing is evicted and everything accepted stays.
+func resubmit(r *vh.Run, rng *vh.RNG, name string, v2 bool) {
+	w := poolrig.NewWorld(r, rng, name, chainx.PoolNet(rng, 1, 1000))
+	g := &poolrig.Gen{W: w, Rng: rng}
+	g.Track = poolrig.NewTracker(w)
+	tip := 0
+	for i := 0; i < 14; i++ {
+		tip = w.GrowRandom(tip, 0)
+	}
+	w.Refresh()
+	cs := w.Node.CM.TipState()
+	free := w.FreeCoins()
+	rounds := 12
+	if len(free) < rounds+2 {
+		w.Finish(false, "resubmit-skipped")
+		return
+	}
+	size := 1_700_000 + rng.Intn(200_000)
+	if v2 {
+		heavy := w.SpendV2(cs, free[0:1], 2, poolrig.Fee(30), size)
+		child := w.SpendV2(cs, []poolrig.Coin{poolrig.CoinV2(heavy, 0)}, 1, poolrig.Fee(20), 0)
+		g.AddV2(w.TipID(), []types.V2Transaction{heavy, child}, nil, "fresh", -1, false)
+		for i := 0; i < rounds && !w.Panicked; i++ {
+			fresh := w.SpendV2(cs, free[1+i:2+i], 1, poolrig.Fee(3+i), 0)
+			set := []types.V2Transaction{heavy.DeepCopy(), fresh}
+			if i%3 == 2 {
+				set = []types.V2Transaction{heavy.DeepCopy(), child.DeepCopy(), fresh}
+			}
+			g.AddV2(w.TipID(), set, nil, "partly-known", -1, true)
+		}
+	} else {
+		heavy := w.SpendV1(cs, free[0:1], 2, poolrig.Fee(30), size)
+		child := w.SpendV1(cs, []poolrig.Coin{poolrig.CoinV1(heavy, 0)}, 1, poolrig.Fee(20), 0)
+		g.AddV1([]types.Transaction{heavy, child}, nil, "fresh", -1, false)
+		for i := 0; i < rounds && !w.Panicked; i++ {
+			fresh := w.SpendV1(cs, free[1+i:2+i], 1, poolrig.Fee(3+i), 0)
+			set := []types.Transaction{heavy, fresh}
+			if i%3 == 2 {
+				set = []types.Transaction{heavy, child, fresh}
+			}
+			g.AddV1(set, nil, "partly-known", -1, true)
+		}
+	}
+	// the next block confirms nothing of it
+	w.GrowRandom(w.TipID(), 0)
+	w.Refresh()
+	g.Track.Check()
+	g.Lookups(true)
+	w.Finish(true, "resubmit", fmt.Sprintf("resubmit-v2:%v", v2))
+}
+
 func Run(r *vh.Run) {
-	r.Rule = "four case families. history: one real chain.Manager on a growing fork tree driven by 50-90 steps mixing the C14 submission classes (fresh, chained/ephemeral, known, conflicting at k, invalid at k, stale/unknown basis) with blocks confirming pool prefixes, fork branches that overtake the tip (reorg depth 1-3), parent/child sets followed by an unrelated block, and blocks assembled by coreutils.MineBlock; non-trivial = at least one reorg and one accepted set. heavy-parent: a pool whose first non-fitting transaction (1.1-1.4M weight behind another one) is the parent of later small ones, v2 / v1 / mixed, then MineBlock. exact-weight: a pool prefix weighing MaxBlockWeight-d for d in {0,1,5,11,12,13,500}, v1 or v2, with or without v2 block data, then MineBlock twice. full-pool: 14 transactions of 1.5-1.9M weight with distinct fee rates (eviction at 10 x MaxBlockWeight), then MineBlock; distinct = distinct op lists"
+	r.Rule = "four case families. history: one real chain.Manager on a growing fork tree driven by 50-90 steps mixing the C14 submission classes (fresh, chained/ephemeral, known, conflicting at k, invalid at k, stale/unknown basis) with blocks confirming pool prefixes, fork branches that overtake the tip (reorg depth 1-3), parent/child sets followed by an unrelated block, and blocks assembled by coreutils.MineBlock; non-trivial = at least one reorg and one accepted set. resubmit: a 1.7-1.9M-weight pooled transaction (and its child) resubmitted 12 times between two blocks inside sets that also carry a new small transaction (the skipped members must not count towards the pool weight: 12 x 1.8M would reach the eviction threshold), v2 / v1. heavy-parent: a pool whose first non-fitting transaction (1.1-1.4M weight behind another one) is the parent of later small ones, v2 / v1 / mixed, then MineBlock. exact-weight: a pool prefix weighing MaxBlockWeight-d for d in {0,1,5,11,12,13,500}, v1 or v2, with or without v2 block data, then MineBlock twice. full-pool: 14 transactions of 1.5-1.9M weight with distinct fee rates (eviction at 10 x MaxBlockWeight), then MineBlock; distinct = distinct op lists"
 	rng := vh.NewRNG(r.Seed).Fork()
 	n := r.Pick(60, 1200)
 	for i := 0; i < n; i++ {
@@ -367,6 +420,9 @@ func Run(r *vh.Run) {
 	for i, d := range ds {
 		exactWeight(r, rng.Fork(), fmt.Sprintf("w%d-v2", i), d, true, rng.Intn(3))
 		exactWeight(r, rng.Fork(), fmt.Sprintf("w%d-v1", i), d, false, rng.Intn(3))
+	}
+	for i := 0; i < r.Pick(2, 6); i++ {
+		resubmit(r, rng.Fork(), fmt.Sprintf("r%d", i), i%2 == 0)
 	}
 	for i := 0; i < r.Pick(2, 6); i++ {
 		zombie(r, rng.Fork(), fmt.Sprintf("z%d", i), i%2 == 0)
